@@ -654,7 +654,7 @@ func e2eCoq(c *e2eCase, o e2eOut) string {
 	}
 
 	req := vf.CoqApp("rq", vf.CoqStr(c.Method), vf.CoqStr(c.Raw), vf.CoqStr(c.Query), vf.CoqStr(c.Host),
-		e2ePairs(c.Headers), vf.CoqStr(c.Body), "false", vf.CoqStr(c.Peer), vf.CoqBool(c.Trusted), xfu)
+		e2ePairs(c.Headers), vf.CoqStr(c.Body), "false", "false", vf.CoqStr(c.Peer), vf.CoqBool(c.Trusted), xfu)
 	pl := vf.CoqApp("pln", e2ePairs(c.Rule.PHdrs), e2ePairs(c.Rule.PCooks))
 
 	rw := "None"
